@@ -57,10 +57,10 @@ func vfDecodeLine(line string) ([]byte, error) {
 }
 
 type vfClientCaps struct {
-	Protocol   int  `json:"protocol"`    // 0: leave what the client sends
-	NoBinary   bool `json:"no_binary"`
-	NoDir      bool `json:"no_dir"`
-	Fork       bool `json:"fork"`
+	Protocol int  `json:"protocol"` // 0: leave what the client sends
+	NoBinary bool `json:"no_binary"`
+	NoDir    bool `json:"no_dir"`
+	Fork     bool `json:"fork"`
 }
 
 // vfCapsShim rewrites the client's ACT line the way a client with other capabilities would send it.
@@ -96,13 +96,13 @@ func vfCapsShim(caps vfClientCaps) func(line []byte) []byte {
 }
 
 type vfC14Episode struct {
-	ServerTmux bool    `json:"server_in_tmux"` // the server itself runs inside tmux normal mode
-	Tunnel bool        `json:"tunnel"`
-	Kind  string       `json:"kind"` // success, cancel, server-fail, client-fail, ctrl-c
-	Dir   string       `json:"dir"`
-	Caps  vfClientCaps `json:"caps"`
-	Args  baseArgs     `json:"-"`
-	ArgsS string       `json:"server_args"`
+	ServerTmux bool         `json:"server_in_tmux"` // the server itself runs inside tmux normal mode
+	Tunnel     bool         `json:"tunnel"`
+	Kind       string       `json:"kind"` // success, cancel, server-fail, client-fail, ctrl-c
+	Dir        string       `json:"dir"`
+	Caps       vfClientCaps `json:"caps"`
+	Args       baseArgs     `json:"-"`
+	ArgsS      string       `json:"server_args"`
 }
 
 // c14Episode runs one transfer episode through the relays of the rig and applies the narrowing oracle.
